@@ -11,7 +11,7 @@ for dir in refactorings/*/; do
   (cd $d && patch -p1 -s -i /verif/$dir/patch.diff) || { echo "$name PATCH-FAILED"; rm -rf $d; continue; }
   for p in C01 C02 C03 C04 C05 C06 C07 C08 C09 C10 C11 C12 C13 C14 C15 C16 C17 C18 C19 C20; do
     echo "$p"
-  done | xargs -P 10 -I{} sh -c "PYTHONPATH=$d:/verif OMP_NUM_THREADS=1 OPENBLAS_NUM_THREADS=1 MKL_NUM_THREADS=1 /venv/bin/python -m rt.run --prop {} --budget $BUDGET --all --out $d/{}.json >/dev/null 2>$d/{}.err; echo \$? > $d/{}.rc"
+  done | xargs -P 6 -I{} sh -c "PYTHONPATH=$d:/verif OMP_NUM_THREADS=1 OPENBLAS_NUM_THREADS=1 MKL_NUM_THREADS=1 /venv/bin/python -m rt.run --prop {} --budget $BUDGET --all --out $d/{}.json >/dev/null 2>$d/{}.err; echo \$? > $d/{}.rc"
   python3 - "$d" "$name" <<'E'
 import json, sys, os
 d, name = sys.argv[1:3]
